@@ -131,11 +131,12 @@ def gen_task(rng, name, spec, var_types, tier):
     return {"examples": examples, "source": source, "dl": dl, "answers": answers}
 
 
-RESTART_SHARE = 0.3      # share of the cases that drive RestartPBESolver (harness/c10_restart.py)
+# share of the cases that drive RestartPBESolver (harness/c10_restart.py); a restart case costs 20-30 times a plain one
+RESTART_SHARE = {"quick": 0.3, "thorough": 0.06}
 
 
 def gen(rng, i, tier):
-    if rng.random() < RESTART_SHARE:
+    if rng.random() < RESTART_SHARE.get(tier, 0.3):
         from harness import c10_restart
         return c10_restart.gen(rng, i, tier)
     name = rng.choice(["arith", "lists", "lists"])
